@@ -46,3 +46,20 @@ Definition grammar_ok (c : case) : bool :=
 
 Definition log_public_ok (c : case) : bool :=
   let '(ms, _, _, l) := c in forallb (public_entry_b ms) l.
+
+(* transport handler cases: mounts, body empty?, body valid UTF-8?, parser outcome,
+   what the real handler did, invocation log *)
+Definition ep_case := (mounts * bool * bool * input * endpoint_out * log)%type.
+
+Definition endpoint_out_eqb (a b : endpoint_out) : bool :=
+  match a, b with
+  | EpNoMessage, EpNoMessage => true
+  | EpTransportError, EpTransportError => true
+  | EpOut x, EpOut y => outcome_eqb x y
+  | _, _ => false
+  end.
+
+Definition ep_case_ok (v : version) (c : ep_case) : bool :=
+  let '(ms, empty, utf8_ok, i, o, l) := c in
+  let '(o', l') := endpoint v ms corr_call empty utf8_ok i in
+  endpoint_out_eqb o' o && list_eqb entry_eqb l' l.
